@@ -142,3 +142,28 @@ From XcpPins Require Import Pin_operations_tree_walker.
 Theorem C02_src_pin_operations_tree_walker : pin_unchanged name_operations_tree_walker.
 Proof. exact pin_operations_tree_walker. Qed.
 Print Assumptions C02_src_pin_operations_tree_walker.
+
+(* ---- what xcp does with what it finds at the mapped destination (DestMatrix.v; every cell compared with the binary
+   on every run) ---- *)
+From XcpModel Require Import DestMatrix.
+From XcpProofs Require Import DestMatrixProofs.
+Theorem C02_absent_is_created : forall s o, dest_outcome s DAbsent o = Created.
+Proof. exact absent_is_created. Qed.
+Theorem C02_dangling_is_never_written_through : forall s o, dest_outcome s DDangling o = Refused.
+Proof. exact dangling_is_never_written_through. Qed.
+(* frame: a directory found at the path is merged into or kept, never replaced or renamed away *)
+Theorem C02_directory_is_merged_or_kept : forall s d o, is_real_dir d = true ->
+  dest_outcome s d o = Merged \/ dest_outcome s d o = Refused.
+Proof. exact directory_is_merged_or_kept. Qed.
+Print Assumptions C02_absent_is_created.
+Print Assumptions C02_dangling_is_never_written_through.
+Print Assumptions C02_directory_is_merged_or_kept.
+
+(* a directory found where a regular file is to be written is refused before any mutating action (with backups it used to be
+   renamed away wholesale, taking along entries no source maps onto) *)
+Theorem C02_no_file_over_a_directory : forall dg fc src dst e,
+  ce_dst_exists e = true -> ce_same_file e = false ->
+  snd (copy_actions_dd dg true fc src dst e) = false /\
+  forall a, List.In a (fst (copy_actions_dd dg true fc src dst e)) -> mutated a = nil.
+Proof. exact copy_onto_directory_refused. Qed.
+Print Assumptions C02_no_file_over_a_directory.
